@@ -158,7 +158,7 @@ class Integrate:
         else:
             method = "chebyshev"
         if nnodes is None:
-            nnodes = 1 + curve.degree
+            nnodes = max(2, 1 + curve.degree)  # The closed rule needs 2
         nodes_func = nodes_functs[method]
         integ_array_func = array_functs[method]
         nodes_0to1 = nodes_func(nnodes)
@@ -262,7 +262,7 @@ class Integrate:
         else:
             method = "chebyshev"
         if nnodes is None:
-            nnodes = 1 + curve.degree
+            nnodes = max(2, 1 + curve.degree)  # The closed rule needs 2
         nodes_func = nodes_functs[method]
         integ_array_func = array_functs[method]
         nodes_0to1 = nodes_func(nnodes)
@@ -334,7 +334,7 @@ class Integrate:
         else:
             method = "chebyshev"
         if nnodes is None:
-            nnodes = 1 + knotvector.degree
+            nnodes = max(2, 1 + knotvector.degree)  # The closed rule needs 2
         nodes_func = nodes_functs[method]
         integ_array_func = array_functs[method]
         nodes_0to1 = nodes_func(nnodes)
